@@ -8,11 +8,14 @@
 (*  Mode "rewrite"    serialized family values under every single lexical  *)
 (*                    rewrite (and pairs): DeEvent stream unchanged;       *)
 (*                    documents + expected value emitted.                  *)
+(*  Mode "rewriteS"   the same over GENERATED types: every schema of       *)
+(*                    SchemaGen with <= N fields in the round-trippable    *)
+(*                    domain x its four canonical values.                  *)
 (*  Mode "interleave" overlapped lists: every order-preserving             *)
 (*                    interleaving of the children with the number of      *)
 (*                    events that must be held (Held).                     *)
 (***************************************************************************)
-EXTENDS SerdeTypes, DeSM, TLC, Json
+EXTENDS SchemaGen, DeSM, TLC, Json
 
 CONSTANTS Mode, N, Emit, SkipDoctype, Types
 
@@ -126,7 +129,7 @@ TextSites(L) == {j \in 1..Len(L) : L[j][1] = "Text" /\ Len(L[j][2]) >= 2 /\ CutA
 UnkChildOk(tyn) == tyn \in {"F02", "F03", "F05", "F11", "F18", "F19", "F20", "F22", "F23", "F29", "F32"}
 
 \* every single rewrite of the listed kinds
-Rewrites(L, tyn) ==
+Rewrites(L, unkOk) ==
     {[BaseStyle EXCEPT !.cdata = TRUE], [BaseStyle EXCEPT !.refs = TRUE], [BaseStyle EXCEPT !.short = TRUE],
      [BaseStyle EXCEPT !.q = 39], [BaseStyle EXCEPT !.sp = TRUE], [BaseStyle EXCEPT !.rev = TRUE],
      [BaseStyle EXCEPT !.prolog = TRUE], [BaseStyle EXCEPT !.trail = TRUE], [BaseStyle EXCEPT !.unkAttr = TRUE]}
@@ -134,17 +137,17 @@ Rewrites(L, tyn) ==
     \cup {[BaseStyle EXCEPT !.splitAt = j, !.noteKind = k] : j \in TextSites(L), k \in {0, 1}}
     \cup {[BaseStyle EXCEPT !.split3At = j, !.noteKind = k] : j \in {x \in TextSites(L) : Len(L[x][2]) >= 3}, k \in {0, 1}}
     \cup {[BaseStyle EXCEPT !.wsAt = j] : j \in WsSites(L)}
-    \cup (IF UnkChildOk(tyn) /\ ElementOnly(L) /\ Len(L) > 2
+    \cup (IF unkOk /\ ElementOnly(L) /\ Len(L) > 2
           THEN {[BaseStyle EXCEPT !.unkFirst = TRUE], [BaseStyle EXCEPT !.unkLast = TRUE],
                 [BaseStyle EXCEPT !.unkFirst = TRUE, !.unkDeep = TRUE], [BaseStyle EXCEPT !.unkLast = TRUE, !.unkDeep = TRUE],
                 [BaseStyle EXCEPT !.unkFirst = TRUE, !.unkLast = TRUE, !.unkDeep = TRUE, !.short = TRUE]} ELSE {})
 \* a few compositions
-Combos(L, tyn) ==
+Combos(L, unkOk) ==
     {[BaseStyle EXCEPT !.cdata = TRUE, !.short = TRUE, !.q = 39, !.rev = TRUE, !.prolog = TRUE, !.trail = TRUE],
      [BaseStyle EXCEPT !.refs = TRUE, !.sp = TRUE, !.short = TRUE, !.unkAttr = TRUE, !.noteAt = 2],
      [BaseStyle EXCEPT !.refs = TRUE, !.q = 39, !.noteAt = Len(L), !.noteKind = 1, !.prolog = TRUE]}
     \cup {[BaseStyle EXCEPT !.splitAt = j, !.cdata = TRUE, !.rev = TRUE] : j \in TextSites(L)}
-    \cup {[BaseStyle EXCEPT !.wsAt = j, !.short = TRUE, !.noteAt = j, !.unkLast = UnkChildOk(tyn) /\ Len(L) > 2] : j \in WsSites(L)}
+    \cup {[BaseStyle EXCEPT !.wsAt = j, !.short = TRUE, !.noteAt = j, !.unkLast = unkOk /\ Len(L) > 2] : j \in WsSites(L)}
 
 \* DeEvent view modulo attribute spelling: attributes as a set of (key, unescaped value)
 AttrSetOf(tag, n) == LET ps == AttrPairs(tag, n) IN {ps[i] : i \in 1..Len(ps)}
@@ -194,17 +197,26 @@ dvars == <<ty, v, doc, toks, phase>>
 NoV == [z |-> 1]
 IsSoup == Mode \in {"soup", "textrun", "nil"}
 Init == /\ phase = 0 /\ doc = (IF Mode = "textrun" THEN <<60, 97, 62>> ELSE IF Mode = "nil" THEN NilOpen ELSE <<>>) /\ toks = 0 /\ v = NoV
-        /\ ty \in (IF IsSoup THEN {"-"} ELSE Types)
+        /\ ty \in (IF IsSoup THEN {"-"} ELSE IF Mode = "rewriteS"
+                    THEN \* (list items with white space are written as character references by the real serializer only: this
+                         \* module renders documents itself, from the logical tree, where items are joined by blanks)
+                         {sc \in SchemaSet(N) : InRT(sc) /\ \A i \in 1..Len(sc.attrs) : sc.attrs[i] # SList(STRW)}
+                    ELSE Types)
 SoupNext == /\ IsSoup /\ toks < N
             /\ \E t \in (IF Mode = "textrun" THEN TextToks ELSE IF Mode = "nil" THEN NilToks ELSE Toks) : doc' = doc \o t
             /\ toks' = toks + 1 /\ UNCHANGED <<ty, v, phase>>
 ValNext == /\ ~IsSoup /\ phase = 0
-           /\ \E x \in ValuesOf(ty, StrRT, "rt") : v' = x
+           /\ \E x \in (IF Mode = "rewriteS" THEN {ValueOfSch(ty, i) : i \in 1..4} ELSE ValuesOf(ty, StrRT, "rt")) : v' = x
            /\ phase' = 1 /\ UNCHANGED <<ty, doc, toks>>
 Next == SoupNext \/ ValNext
 Spec == Init /\ [][Next]_dvars
 
-Tree == SerTree(v, TypeOf(ty), RootBytes(ty))
+IsRw == Mode \in {"rewrite", "rewriteS"}
+TheType == IF Mode = "rewriteS" THEN TypeOfSch(ty) ELSE TypeOf(ty)
+Tree == SerTree(v, TheType, IF Mode = "rewriteS" THEN <<82>> ELSE RootBytes(ty))
+\* generated structs ignore unknown fields (as derived ones do by default) - unless they have a $value field, which takes
+\* every element that is not a named field
+UnkOk == IF Mode = "rewriteS" THEN ty.content = <<>> ELSE UnkChildOk(ty)
 Base == RenderDoc(Tree, BaseStyle)
 
 \* C07: the lemma behind the unreachable!() sites, on every token soup
@@ -215,12 +227,12 @@ Inv_DeBounded == IsSoup =>
 
 \* C15: the DeEvent stream does not depend on the lexical presentation
 Inv_Rewrite ==
-    (Mode = "rewrite" /\ phase = 1) =>
+    (IsRw /\ phase = 1) =>
         LET ref == DeView2(Base, DeEvents(Base, TRUE)) IN
-        \A st \in Rewrites(Tree, ty) \cup Combos(Tree, ty) :
+        \A st \in Rewrites(Tree, UnkOk) \cup Combos(Tree, UnkOk) :
             InvisibleToEvents(st) => LET d == RenderDoc(Tree, st) IN DeView2(d, DeEvents(d, TRUE)) = ref
 \* and the base document reads back as the value's logical tree
-Inv_BaseReadsBack == (Mode = "rewrite" /\ phase = 1) => NormEmpty(ReadBack(Base)) = Tree
+Inv_BaseReadsBack == (IsRw /\ phase = 1) => NormEmpty(ReadBack(Base)) = Tree
 
 \* An absent optional field may also be PRESENT in the document as an element marked xsi:nil="true" (whatever it contains):
 \* for F32 values without `o` the interleaved children include <o xsi:nil="true"><x/>t</o>, the prefix bound on the root.
@@ -244,10 +256,14 @@ Inv_Inter ==
 Inv_Emit ==
     Emit =>
         CASE IsSoup -> PrintT(<<"REPLAY", ToJson([doc |-> doc])>>)
+          [] Mode = "rewriteS" /\ phase = 1 ->
+                PrintT(<<"REPLAY", ToJson([ty |-> "dyn", schema |-> TheType, v |-> v, base |-> Base,
+                                           docs |-> {RenderDoc(Tree, st) : st \in {x \in Rewrites(Tree, UnkOk) \cup Combos(Tree, UnkOk) : InvisibleToEvents(x)}},
+                                           udocs |-> {RenderDoc(Tree, st) : st \in {x \in Rewrites(Tree, UnkOk) \cup Combos(Tree, UnkOk) : ~InvisibleToEvents(x)}}])>>)
           [] Mode = "rewrite" /\ phase = 1 ->
                 PrintT(<<"REPLAY", ToJson([ty |-> ty, v |-> v, base |-> Base,
-                                           docs |-> {RenderDoc(Tree, st) : st \in {x \in Rewrites(Tree, ty) \cup Combos(Tree, ty) : InvisibleToEvents(x)}},
-                                           udocs |-> {RenderDoc(Tree, st) : st \in {x \in Rewrites(Tree, ty) \cup Combos(Tree, ty) : ~InvisibleToEvents(x)}}])>>)
+                                           docs |-> {RenderDoc(Tree, st) : st \in {x \in Rewrites(Tree, UnkOk) \cup Combos(Tree, UnkOk) : InvisibleToEvents(x)}},
+                                           udocs |-> {RenderDoc(Tree, st) : st \in {x \in Rewrites(Tree, UnkOk) \cup Combos(Tree, UnkOk) : ~InvisibleToEvents(x)}}])>>)
           [] Mode = "interleave" /\ phase = 1 ->
                 PrintT(<<"REPLAY", ToJson([ty |-> ty, v |-> v,
                                            cases |-> {<<RenderDoc(Reassemble(TreeI, o, ty), BaseStyle), IF HasFixedList(ty) THEN 0 ELSE Held(o, ListFields(ty)), SumSizes(o)>> : o \in Inter(ChildrenOf(TreeI, ty))}])>>)
